@@ -345,11 +345,17 @@ func c05SameSearch(c *Ctx, sx *symx.Ctx) {
 	steps := withSteps(c, fn, 1)
 	nGet, nPut := 0, 0
 	for _, g := range steps {
-		nGet += len(callsTo(g, scMeth+"Get"))
-		nPut += len(callsTo(g, scMeth+"Put"))
+		nGet += len(cacheOpsIn(g, "get"))
+		nPut += len(cacheOpsIn(g, "put"))
 	}
-	g, gstack := reachCall(c, fn, scMeth+"Get", nil, 1)
-	p, pstack := reachCall(c, fn, scMeth+"Put", nil, 1)
+	isKind := func(kind string) func(*ssa.Call) bool {
+		return func(call *ssa.Call) bool {
+			acc, ok := cacheOp(call)
+			return ok && acc.kind == kind
+		}
+	}
+	g, gstack := reachCallPred(c, fn, isKind("get"), nil, 1)
+	p, pstack := reachCallPred(c, fn, isKind("put"), nil, 1)
 	if nGet != 1 || nPut != 1 || g == nil || p == nil {
 		r.Bad("O-2", fk+"#one-get-one-put", c.P.Pos(fn.Pos()), fmt.Sprintf("%d Get and %d Put calls (want one each)", nGet, nPut))
 		return
@@ -374,10 +380,12 @@ func c05SameSearch(c *Ctx, sx *symx.Ctx) {
 		}
 		return ""
 	}}
+	gAcc, _ := cacheOp(g)
+	pAcc, _ := cacheOp(p)
 	qn, on := "param:"+fn.Params[1].Name(), "param:"+fn.Params[2].Name()
-	gq, pq := ev.Describe(g.Common().Args[1], gstack), ev.Describe(p.Common().Args[1], pstack)
+	gq, pq := ev.Describe(gAcc.query, gstack), ev.Describe(pAcc.query, pstack)
 	r.Check(gq == qn && pq == qn, "O-2", fk+"#same-query", c.P.Pos(p.Pos()), "Get and Put are keyed by the function's query", "Get and Put are not keyed by the same query value: "+gq+" vs "+pq)
-	gf, pf := ev.Fields(g.Common().Args[2], gstack), ev.Fields(p.Common().Args[2], pstack)
+	gf, pf := ev.Fields(gAcc.options, gstack), ev.Fields(pAcc.options, pstack)
 	sameO := len(gf) > 0 && len(gf) == len(pf) && gf["Limit"] == on+".Limit"
 	diff := ""
 	for k, v := range gf {
@@ -389,7 +397,7 @@ func c05SameSearch(c *Ctx, sx *symx.Ctx) {
 	r.Check(sameO, "O-2", fk+"#same-cache-options", c.P.Pos(p.Pos()), "Get and Put use the same cache options value", "Get and Put use different cache options values (or the options are modified in between): "+diff)
 	// the stored list converts the engine result of this activation, called with (query, options)
 	engDesc := "engine(" + qn + "," + on + ")"
-	stored := ev.Describe(p.Common().Args[3], pstack)
+	stored := ev.Describe(pAcc.list, pstack)
 	r.Check(stored == "convertDB("+engDesc+")", "O-2", fk+"#stores-this-search", c.P.Pos(p.Pos()), "Put stores convertDBResults(SearchUniversal(query, options))", "the list stored in the cache is not the converted result of SearchUniversal(query, options) of this call: "+stored)
 	// returns
 	hit := "convertCache(get#0)"
@@ -580,7 +588,7 @@ func c05Switches(c *Ctx) {
 			bad = "the manager's switch is never consulted"
 		}
 		reach := reachableFromEntry(fn, cut)
-		for _, call := range append(callsTo(fn, scMeth+"Get"), callsTo(fn, scMeth+"Put")...) {
+		for _, call := range append(cacheOpsIn(fn, "get"), cacheOpsIn(fn, "put")...) {
 			if reach[call.Block()] {
 				bad = "a cache Get/Put is reachable while the manager is disabled"
 			}
@@ -628,9 +636,29 @@ func c05Alias(c *Ctx) {
 	put := c.P.Func("internal/cache", "SearchCache", "Put")
 	if r.Anchor("O-5", "cache.(*SearchCache).Put", put != nil) {
 		good := false
+		// the method that hands the list to the LRU: Put itself, or the keyed
+		// store it delegates to
+		if len(callsTo(put, "(*"+cachePkg+".LRUCache).Put")) == 0 {
+			for _, g := range withSteps(c, put, 1) {
+				if kind, _, li := keyedCacheMethod(g); kind == "put" && li < len(g.Params) {
+					// Put passes its own list on unchanged
+					for _, call := range callsTo(put, ssau.FuncName(g)) {
+						if li < len(call.Common().Args) && call.Common().Args[li] == ssa.Value(put.Params[3]) {
+							put = g
+						}
+					}
+				}
+			}
+		}
+		listP := ssa.Value(put.Params[len(put.Params)-1])
+		for _, p := range put.Params {
+			if srSliceAny(p.Type()) {
+				listP = p
+			}
+		}
 		for _, call := range callsTo(put, "(*"+cachePkg+".LRUCache).Put") {
 			v := ssau.Strip(call.Common().Args[2])
-			src := ssa.Value(put.Params[3])
+			src := listP
 			switch x := v.(type) {
 			case *ssa.MakeSlice:
 				// copy(mk, results)
